@@ -19,6 +19,11 @@ pub enum Error {
     Other,
 }
 
+#[verifier::external]
+impl std::fmt::Debug for Error {
+    fn fmt(&self, f: &mut std::fmt::Formatter<'_>) -> std::fmt::Result { Ok(()) }
+}
+
 /// a is a prefix of b (index-wise, automation friendly)
 pub open spec fn pre(a: Seq<u8>, b: Seq<u8>) -> bool {
     a.len() <= b.len() && forall|i: int| 0 <= i < a.len() ==> a[i] == b[i]
